@@ -109,7 +109,7 @@ pub fn run(ctx: &Ctx) -> Report {
                     }
                     let want = per_block(&inst, encrypt, &data, bs);
                     let shapes: Vec<Shape> = if ctx.tier == Tier::Quick && n > 2 * w + 1 {
-                        vec![Shape::Blocks, Shape::BlocksB2b, Shape::BackendPar]
+                        vec![Shape::Blocks, Shape::BlocksB2b, Shape::BackendPar, Shape::BackendParInplace]
                     } else {
                         ALL_SHAPES.to_vec()
                     };
